@@ -79,6 +79,12 @@ func c03Post(s c03State, err error, adv int) {
 	verifReach("end")
 }
 
+// c03VarintVal is the value the reference reads at the cursor (only meaningful when c03VarintLen >= 0)
+func c03VarintVal(s c03State) uint64 {
+	v, _ := protowire.ConsumeVarint(s.p[s.off:])
+	return v
+}
+
 func c03VarintLen(s c03State) int {
 	_, n := protowire.ConsumeVarint(s.p[s.off:])
 	return n
@@ -110,43 +116,64 @@ func H_C03_DecodeTag() {
 
 func H_C03_DecodeBool() {
 	s := c03Pre(c03Lmax(24, 40))
-	_, err := s.d.DecodeBool()
+	got, err := s.d.DecodeBool()
+	if err == nil {
+		verifAssert(verifImplies(c03VarintLen(s) >= 0, got == (c03VarintVal(s) != 0)), "the value is the one the reference reads from the same bytes (any number of bytes may follow)")
+	}
 	c03Post(s, err, c03VarintLen(s))
 }
 
 func H_C03_DecodeUInt32() {
 	s := c03Pre(c03Lmax(24, 40))
-	_, err := s.d.DecodeUInt32()
+	got, err := s.d.DecodeUInt32()
+	if err == nil {
+		verifAssert(verifImplies(c03VarintLen(s) >= 0, uint64(got) == c03VarintVal(s)), "the value is the one the reference reads from the same bytes (any number of bytes may follow)")
+	}
 	c03Post(s, err, c03VarintLen(s))
 }
 
 func H_C03_DecodeUInt64() {
 	s := c03Pre(c03Lmax(24, 40))
-	_, err := s.d.DecodeUInt64()
+	got, err := s.d.DecodeUInt64()
+	if err == nil {
+		verifAssert(verifImplies(c03VarintLen(s) >= 0, got == c03VarintVal(s)), "the value is the one the reference reads from the same bytes (any number of bytes may follow)")
+	}
 	c03Post(s, err, c03VarintLen(s))
 }
 
 func H_C03_DecodeInt32() {
 	s := c03Pre(c03Lmax(24, 40))
-	_, err := s.d.DecodeInt32()
+	got, err := s.d.DecodeInt32()
+	if err == nil {
+		verifAssert(verifImplies(c03VarintLen(s) >= 0, uint64(int64(got)) == c03VarintVal(s)), "the value is the one the reference reads from the same bytes (any number of bytes may follow)")
+	}
 	c03Post(s, err, c03VarintLen(s))
 }
 
 func H_C03_DecodeInt64() {
 	s := c03Pre(c03Lmax(24, 40))
-	_, err := s.d.DecodeInt64()
+	got, err := s.d.DecodeInt64()
+	if err == nil {
+		verifAssert(verifImplies(c03VarintLen(s) >= 0, uint64(got) == c03VarintVal(s)), "the value is the one the reference reads from the same bytes (any number of bytes may follow)")
+	}
 	c03Post(s, err, c03VarintLen(s))
 }
 
 func H_C03_DecodeSInt32() {
 	s := c03Pre(c03Lmax(24, 40))
-	_, err := s.d.DecodeSInt32()
+	got, err := s.d.DecodeSInt32()
+	if err == nil {
+		verifAssert(verifImplies(c03VarintLen(s) >= 0, int64(got) == protowire.DecodeZigZag(c03VarintVal(s))), "the value is the one the reference reads from the same bytes (any number of bytes may follow)")
+	}
 	c03Post(s, err, c03VarintLen(s))
 }
 
 func H_C03_DecodeSInt64() {
 	s := c03Pre(c03Lmax(24, 40))
-	_, err := s.d.DecodeSInt64()
+	got, err := s.d.DecodeSInt64()
+	if err == nil {
+		verifAssert(verifImplies(c03VarintLen(s) >= 0, got == protowire.DecodeZigZag(c03VarintVal(s))), "the value is the one the reference reads from the same bytes (any number of bytes may follow)")
+	}
 	c03Post(s, err, c03VarintLen(s))
 }
 
